@@ -786,7 +786,8 @@ package vnet
 //@ global macAddrCounter atomic
 //@ lockset C19: Router, Net, udpConnMap, chunkQueue, networkAddressTranslator, mapping, UDPConn, TokenBucketFilter, DelayFilter, LossFilter
 
-//@ property C02: networkAddressTranslator.translateOutbound, networkAddressTranslator.findOutboundMapping, networkAddressTranslator.allocUDPPort, networkAddressTranslator.removeMapping
+// (translateInbound belongs to C02 as well: inbound traffic alone never prolongs a mapping, clause [norefresh])
+//@ property C02: networkAddressTranslator.translateOutbound, networkAddressTranslator.findOutboundMapping, networkAddressTranslator.allocUDPPort, networkAddressTranslator.removeMapping, networkAddressTranslator.translateInbound
 //@ property C03: networkAddressTranslator.translateInbound, networkAddressTranslator.removeMapping
 //@ property C14: chunkQueue.push, chunkQueue.pop, chunkQueue.peek, DelayFilter.onInboundChunk, DelayFilter.Run, Router.push, Router.processChunks, Router.AddChunkFilter
 //@ property C15: TokenBucketFilter.refillTokens, TokenBucketFilter.drainQueue, TokenBucketFilter.run, TokenBucketFilter.onInboundChunk, chunkQueue.push, chunkQueue.pop, chunkQueue.peek
